@@ -50,7 +50,8 @@ def setup(dehash=None, ndset=(), plain=(), canaries=None, shadow_hash=True):
     if SYM:
         transforms.install(
             dehash=transforms.DEFAULT_DEHASH if dehash is None else dehash,
-            ndset=ndset, plain=plain, patches=patches, shadow_hash=shadow_hash)
+            ndset=ndset, plain=plain or transforms.DEFAULT_PLAIN, patches=patches,
+            shadow_hash=shadow_hash)
     elif patches:
         transforms.install(dehash=(), ndset=(), plain=(), patches=patches,
                            shadow_hash=False)
@@ -71,6 +72,14 @@ def _isolate_wn():
     atexit.register(shutil.rmtree, d, True)
 
 
+def begin():
+    """Clear the model caches (functools.lru_cache stand-ins): called at the start of a
+    harness path by DB()/Graph() unless told otherwise, and at its end by verdict()."""
+    if SYM:
+        from vf.lincont import reset_model_caches
+        reset_model_caches()
+
+
 def verdict(ok):
     """Final return value of a harness.
 
@@ -78,6 +87,7 @@ def verdict(ok):
     the reachability witness for the harness (a twin that is 'confirmed' or
     cannot meet its precondition means the harness is vacuous).
     """
+    begin()
     if TWIN:
         return False
     return ok
@@ -135,8 +145,10 @@ def log(*a):
 class DB:
     """A fresh, empty wn database."""
 
-    def __init__(self):
+    def __init__(self, fresh=True):
         import wn
+        if fresh:
+            begin()
         if SYM:
             from vf import sqlmodel
             self.conn = sqlmodel.install(sqlmodel.MConn())
